@@ -581,7 +581,7 @@ fn c06_scenarios(tier: Tier) -> Vec<Scenario> {
     alpha.push(Action::TxFail { ops: bodies[0].clone(), call: 1001 });
     alpha.push(Action::TxFail { ops: bodies[3].clone(), call: 1001 });
     let followups: Vec<Action> = bodies.iter().take(6).map(|b| Action::Tx { ops: b.clone(), commit: true }).collect();
-    let mut sc = Scenario::new("rollback-menu", Cfg::default(), setup, Box::new(alpha), if q { 3 } else { 5 }, or);
+    let mut sc = Scenario::new("rollback-menu", Cfg::default(), setup.clone(), Box::new(alpha), if q { 3 } else { 5 }, or);
     sc.drop_keeps_digest = true;
     sc.bisim_followups = followups;
     out.push(sc);
@@ -597,8 +597,27 @@ fn c06_scenarios(tier: Tier) -> Vec<Scenario> {
         for call in [1000, 1001, 1002] {
             alpha.push(Action::TxFail { ops: small.clone(), call });
         }
+        // headers in the slots of the pinned release (a no-op unless the alternation rule changed), and
+        // writes that are cut short before they fail
+        alpha.push(Action::PinnedLayout);
+        for call in 2..12 {
+            alpha.push(Action::TxFail { ops: small.clone(), call: 3000 + call });
+        }
         let or2 = Oracles { rets: true, dump_after: true, fileck: true, dbcheck: true, ..Oracles::NONE };
         let sc = Scenario::new("torn-slot-failing-commits", Cfg::default(), vec![tx(vec![OpSpec::bucket("create", &[], "b"), OpSpec::put(&["b"], "k0", "w*300"), OpSpec::put(&["b"], "k1", "w*300")]), tx(vec![OpSpec::put(&["b"], "k2", "w*300")])], Box::new(alpha), if q { 3 } else { 4 }, or2);
+        out.push(sc);
+    }
+    // strict mode on a file with a leaked page: commits report an error of their own, and a commit
+    // that reports an error must not have changed anything
+    {
+        let small = vec![OpSpec::put(&["b"], "k0", "v*8")];
+        let alpha: Vec<Action> = vec![Action::TxFail { ops: small.clone(), call: 9000 }, Action::TxFail { ops: bodies[1].clone(), call: 9000 }, Action::TxFail { ops: bodies[5].clone(), call: 9000 }, Action::RoTx { ops: vec![] }, Action::Reopen, Action::Tx { ops: small.clone(), commit: false }];
+        let or3 = Oracles { rets: true, dump_after: true, ..Oracles::NONE };
+        let mut setup3 = setup.clone();
+        setup3.push(tx(vec![OpSpec::del(&["b"], "k4"), OpSpec::del(&["b"], "k5")]));
+        setup3.push(tx(vec![OpSpec::put(&["b"], "k4", "v*8")]));
+        setup3.push(Action::LeakFreePage);
+        let sc = Scenario::new("strict-mode-refuses-on-leaked-page", Cfg { strict: true, ..Cfg::default() }, setup3, Box::new(alpha), if q { 3 } else { 4 }, or3);
         out.push(sc);
     }
     // the kv alphabet with drops, smaller trees
